@@ -1,14 +1,14 @@
-\* quick + thorough: the repaired design, 2 requests, shutdown at any point - every safety clause and liveness
+\* thorough: the repaired design, 3 requests with two priorities, queue of 2, no shutdown - every safety clause
 CONSTANTS
-  Req = {"r1", "r2"}
-  Prio <- cPrio2
+  Req = {"r1", "r2", "r3"}
+  Prio <- cPrio3
   TTL = 2
   Slack = 1
-  QueueSize = 1
+  QueueSize = 2
   QMax = 1
   QW = 2
-  MaxNow = 5
-  Shutdowns = TRUE
+  MaxNow = 4
+  Shutdowns = FALSE
   SplitSlotCheck = FALSE
   RequeueNewTs = FALSE
   StopAllGuarded = TRUE
@@ -17,9 +17,8 @@ CONSTANTS
   HeapFifo = TRUE
   SlotStrict = TRUE
   CallsStopAll = TRUE
-SPECIFICATION FairSpec
+SPECIFICATION Spec
 INVARIANTS TypeOK OneVerdict OnlyIfQuota Order SizeBound NoCrash Protocol Faithful
-PROPERTIES Answered
 VIEW View
 CHECK_DEADLOCK FALSE
 
